@@ -24,7 +24,8 @@ class C11(BaseCheck):
           'and the client\'s read offsets: each Tdispatch tag must be in [2, 2^24-2] and not in U; at the '
           'end the highest tag must be <= 1 + peak(calls in flight + timed-out-unanswered; per-connection send '
           'queue order from a tap on the transport\'s entry point). Function level: '
-          'icontract conditions on TagPool.get/release against a shadow lease set. non-trivial = at least '
+          'icontract conditions on TagPool.get/release against a shadow lease set, and the real TagPool with a '
+          'small tag space driven through exhaustion and beyond. non-trivial = at least '
           '10 requests decoded; distinct by (transport, adversarial frame classes, timeout classes, re-opens, '
           'concurrency bucket)')
   ANCHORS = ('scales.mux.sink:TagPool.get', 'scales.mux.sink:TagPool.release',
@@ -33,7 +34,7 @@ class C11(BaseCheck):
              'scales.kafka.sink:KafkaTransportSink._ProcessReply')
   REQUIRED_ANCHORS = ANCHORS
   REQUIRED_CLASSES = ('thriftmux', 'kafka', 'adv:duplicate-reply', 'adv:unknown-tag', 'adv:reserved-tag-1',
-                      'adv:tag-0', 'adv:huge-tag', 'adv:bitflip-tag', 'kafka:timeouts', 'timeout-before-send', 'timeout-after-send', 're-open',
+                      'adv:tag-0', 'adv:huge-tag', 'adv:bitflip-tag', 'kafka:timeouts', 'tagpool:exhausted', 'tagpool:get-after-refusal', 'timeout-before-send', 'timeout-after-send', 're-open',
                       'tag-reuse')
   ASSUMPTIONS = ('a tag counts as answered when the client has read the last byte of any R-frame carrying it '
                  '(known from the simulated socket\'s read offsets)',)
@@ -203,12 +204,50 @@ class C11(BaseCheck):
         maxtag[c] = max(maxtag.get(c, 1), tag)
     return maxtag, reuse
 
+  def _tagpool_direct(self, rng, out, classes):
+    """The real TagPool with a small tag space driven through exhaustion and beyond: every tag
+    handed out lies in [2, max_tag-1] and is not leased; a refusal is only legitimate when the
+    whole space is leased; released tags are handed out again."""
+    from scales.mux.sink import TagPool
+    mx = rng.choice([4, 5, 8, 13, 40])
+    pool = TagPool(mx, 'svc', 'h:1')
+    space = mx - 2                      # tags 2 .. mx-1
+    leased = set()
+    refused = 0
+    classes.add('tagpool:small-space')
+    for _ in range(rng.choice([30, 80, 200])):
+      if leased and rng.random() < (0.25 if len(leased) < space else 0.5):
+        t = rng.choice(sorted(leased))
+        leased.discard(t)
+        pool.release(t)
+        continue
+      out.obligations += 1
+      try:
+        t = pool.get()
+      except Exception:  # noqa
+        refused += 1
+        classes.add('tagpool:exhausted')
+        if len(leased) < space:
+          out.violate('tagpool:refused-with-free-tags', 'get() refused with %d of %d tags leased (max_tag=%d, after %d '
+                      'refusals)' % (len(leased), space, mx, refused), {'after_refusal': refused > 1})
+          return
+        continue
+      if refused:
+        classes.add('tagpool:get-after-refusal')
+      if not (2 <= t <= mx - 1) or t in leased:
+        out.violate('tagpool:bad-tag', 'get() returned %r with leased=%r, max_tag=%d (tags are 2..%d), after %d '
+                    'refusals' % (t, sorted(leased)[:8], mx, mx - 1, refused), {'after_refusal': refused > 0,
+                                                                                'reserved': t in (0, 1)})
+        return
+      leased.add(t)
+
   def _thriftmux(self, env, rng, idx, tier, out):
     from scales.message import TimeoutError as ScalesTimeout
     from vlib import muxcodec as mc, servers
     from vlib.stackworld import StackWorld
     classes = {'thriftmux'}
     self.route = {}
+    self._tagpool_direct(rng, out, classes)
     adversarial = rng.random() < 0.5
     n_eps = rng.choice([1, 1, 2])
     conc = rng.choice([1, 3, 8, 20, 40])
